@@ -86,8 +86,8 @@ def local_form_obs(em, D):
         for v in locs:
             rhs = block[v].RHS()
             cname = canonical(model, s, v)
-            if 'EXOGENOUS' in rhs:
-                continue
+            if re.match(r'^\s*EXOGENOUS(?![A-Za-z0-9_])', rhs):
+                continue        # an exogenous definition (the Model's marker in front of the stated path)
             m = re.match(r'^\s*([A-Za-z_][A-Za-z_0-9]*)\s*\(\s*k\s*-\s*1\s*\)\s*$', rhs)
             if m:
                 src = m.group(1)
